@@ -20,6 +20,10 @@ type C02Scenario struct {
 	Sizes   []int  `json:"sizes"`
 	PatKey  uint64 `json:"pat_key"`
 	ReadBuf int    `json:"read_buf"`
+	// Assign (reader policy 2 only): arrival k is delivered by task Assign[k];
+	// each task (a connection's receive loop) delivers its arrivals in order,
+	// the tasks run concurrently. nil: one task delivers everything.
+	Assign []int `json:"assign,omitempty"`
 }
 
 var factorials = []int{1, 1, 2, 6, 24, 120, 720, 5040}
@@ -126,6 +130,14 @@ func genC02Sampled(g *Gen) any {
 		sc.Sizes = append(sc.Sizes, g.Pick(1, 2, 7, 40, 300, 1500, g.Int(1, 16000)))
 	}
 	sc.ReadBuf = g.Pick(1, 3, 64, 4096, 70000)
+	if g.Bool(0.35) {
+		// frames arrive on 2..4 connections whose receive loops run concurrently
+		sc.Reader = 2
+		nt := g.Int(2, 4)
+		for k := 0; k < n; k++ {
+			sc.Assign = append(sc.Assign, g.Rng.IntN(nt))
+		}
+	}
 	if sc.ReadBuf < 64 {
 		// tiny read buffers: keep the byte count (hence the step count) small
 		for k := range sc.Sizes {
@@ -166,11 +178,13 @@ func runC02(c *Ctx, scAny any) {
 		}
 	}
 	var got []byte
-	shared := make([]byte, 70000)
+	closes := 0
 	arrive := func(k int) bool {
 		idx := sc.Order[k]
 		// the payload aliases a buffer the caller reuses right after Write returns
-		p := shared[:len(payloads[idx])]
+		// (one buffer per delivering task, as each connection's receive loop has)
+		shared := make([]byte, len(payloads[idx]))
+		p := shared
 		copy(p, payloads[idx])
 		f := &mux.Frame{StreamID: 1, Seq: sc.Start + uint64(idx), Payload: p}
 		if sc.Closing && idx == last {
@@ -183,6 +197,20 @@ func runC02(c *Ctx, scAny any) {
 		if err != nil {
 			c.Fail("reassembly", "write-error", "arrival %d (frame %d of %d, order %v): Write returned %v", k, idx, n, sc.Order, err)
 			return false
+		}
+		if sc.Assign != nil {
+			// concurrent deliverers: "the arrival that completes the prefix" is not
+			// defined by position; exactly one Write must report the close, and the
+			// byte comparison below shows whether it took effect too early
+			if toBeClosed {
+				closes++
+				if closes > 1 || !sc.Closing {
+					c.Fail("reassembly", "close-timing", "arrival %d (frame %d): Write reported toBeClosed a second time or without a closing frame", k, idx)
+					return false
+				}
+				sb.Close()
+			}
+			return true
 		}
 		if toBeClosed != (k == closeAt) {
 			c.Fail("reassembly", "close-timing", "arrival %d (frame %d, order %v, closing frame is %d): Write reported toBeClosed=%v, expected %v (the close must take effect exactly when every lower-numbered frame has been handed over)", k, idx, sc.Order, last, toBeClosed, k == closeAt)
@@ -216,14 +244,24 @@ func runC02(c *Ctx, scAny any) {
 		drain()
 	case 2:
 		done := 0
-		simsync.Go("h:arrivals", func() {
-			defer func() { done++ }()
-			for k := range sc.Order {
-				if !arrive(k) {
-					return
+		ntasks := 1
+		for _, a := range sc.Assign {
+			ntasks = max(ntasks, a+1)
+		}
+		for t := 0; t < ntasks; t++ {
+			t := t
+			simsync.Go("h:arrivals", func() {
+				defer func() { done++ }()
+				for k := range sc.Order {
+					if sc.Assign != nil && sc.Assign[k] != t {
+						continue
+					}
+					if !arrive(k) {
+						return
+					}
 				}
-			}
-		})
+			})
+		}
 		simsync.Go("h:reader", func() {
 			defer func() { done++ }()
 			for len(got) < len(want) {
@@ -237,11 +275,11 @@ func runC02(c *Ctx, scAny any) {
 				}
 			}
 		})
-		end := c.Drive(func() bool { return done == 2 })
+		end := c.Drive(func() bool { return done == ntasks+1 })
 		if c.Failed() {
 			return
 		}
-		if end == simsync.EndQuiescent && done < 2 {
+		if end == simsync.EndQuiescent && done < ntasks+1 {
 			c.Fail("reassembly", "parked-forever", "order %v: reader still waits for data at final quiescence: got %d of %d bytes, %d frames parked", sc.Order, len(got), len(want), sb.Parked())
 			return
 		}
